@@ -2,6 +2,7 @@ CONSTANTS FlawShallowListFreeze = FALSE
  FlawSharedConstants = TRUE
  FlawInPlaceSort = FALSE
  FlawAppendSharesCapacity = FALSE
+ FlawSortedAliasesOrdered = FALSE
  OnlyTargets = {}
  MaxMut = 2
  DeepVias = {"direct", "alias", "arg", "compr", "loop"}
